@@ -174,11 +174,18 @@ def setForm (h : Heap) (a : Nat) (name : String) : Res Unit :=
   | none => (h, .error .unknownForm)
   | some g => setFormTo h a g
 
+/-- the environment: which rotations / offsets between two frames (given by name) raise, and with what — the centre of
+the target frame cannot be reached; no Earth-orientation data for the date under the 'error' policy (which rotations
+need them depends on what the Date object has cached, so this is an input of the model, not computed by it) -/
+abbrev Env := String → String → Option Err
+
+/-- nothing fails (the default configuration: missing Earth-orientation data are replaced by zeros) -/
+def noEnv : Env := fun _ _ => none
+
 /-- the state-vector part of the frame setter (everything before the covariance is looked at);
-`fr` is the resolved Frame. `env = some e`: the environment makes `Frame.transform` between two different
-frames raise `e` (the centre of the target frame cannot be reached; no Earth-orientation data for the date
-under the 'error' policy): like the Hill cases, the `finally` clause then converts the elements back -/
-def setFrameBasic (h : Heap) (a : Nat) (fr : Fr) (env : Option Err := none) : Res Unit :=
+`fr` is the resolved Frame. When the environment makes `Frame.transform` raise, the `finally` clause
+converts the elements back, like in the Hill cases -/
+def setFrameBasic (h : Heap) (a : Nat) (fr : Fr) (env : Env := noEnv) : Res Unit :=
   match getSV h a with
   | none => (h, .error .bad)
   | some s =>
@@ -187,7 +194,7 @@ def setFrameBasic (h : Heap) (a : Nat) (fr : Fr) (env : Option Err := none) : Re
       let v1 := mkConv s.form "cartesian" s.val
       match s.frame, fr with
       | .reg x _, .reg y _ =>
-        match (if x = y then none else env) with     -- a clone of the same frame: no rotation, no offset to compute
+        match (if x = y then none else env x y) with     -- a clone of the same frame: no rotation, no offset to compute
         | some e => (write h s.buf (.buf (mkConv "cartesian" s.form v1)), .error e)
         | none =>
           let h := write h s.buf (.buf (mkConv "cartesian" s.form (.xform x y v1)))
@@ -209,13 +216,29 @@ def covRotError (cfr fr ofr : Fr) : Option Err :=
     else if ofr ≠ fr then (if ofr.isHill then some .attr else if fr.isHill then some .value else none)
     else none
 
+/-- the rotation between two frames the covariance setter asks for: does the environment make it raise?
+Local orientations (`to_local`) and clones of the same frame need no date-dependent rotation -/
+def rotErr (env : Env) (a b : Fr) : Option Err :=
+  match a, b with
+  | .reg x _, .reg y _ => if x = y then none else env x y
+  | _, _ => none
+
+/-- `Cov.frame = fr`: first the rotation current → parent frame, then parent → target -/
+def covEnvError (env : Env) (cfr fr ofr : Fr) : Option Err :=
+  match rotErr env cfr ofr with
+  | some e => some e
+  | none => rotErr env ofr fr
+
 /-- `Cov.frame = fr` (resolved) on the covariance object at `c`: the covariance's own buffer and its frame label
-are rewritten, nothing else (`self.view(np.ndarray)[:] = cov; self._data["frame"] = frame`) -/
-def covSetFrame (h : Heap) (c : Nat) (fr : Fr) : Res Unit :=
+are rewritten, nothing else (`self.view(np.ndarray)[:] = cov; self._data["frame"] = frame`).
+`env`: the rotations the environment makes raise (see `setFrameBasic`) -/
+def covSetFrame (h : Heap) (c : Nat) (fr : Fr) (env : Env := noEnv) : Res Unit :=
   match h[c]? with
   | some (.cov b cfr orb ofr) =>
     if fr = cfr then (h, .ok ())
-    else match covRotError cfr fr ofr with
+    else match (match covRotError cfr fr ofr with
+                | some e => some e
+                | none => covEnvError env cfr fr ofr) with
       | some e => (h, .error e)
       | none =>
         match getSV h orb, h[b]? with
@@ -226,7 +249,7 @@ def covSetFrame (h : Heap) (c : Nat) (fr : Fr) : Res Unit :=
   | _ => (h, .error .bad)
 
 /-- `sv.frame = <Frame object fr>` -/
-def setFrameTo (h : Heap) (a : Nat) (fr : Fr) (env : Option Err := none) : Res Unit :=
+def setFrameTo (h : Heap) (a : Nat) (fr : Fr) (env : Env := noEnv) : Res Unit :=
   match getSV h a with
   | none => (h, .error .bad)
   | some s =>
@@ -236,12 +259,12 @@ def setFrameTo (h : Heap) (a : Nat) (fr : Fr) (env : Option Err := none) : Res U
       match lookup "cov" s.items with
       | some (.addr c) =>
         match h[c]? with
-        | some (.cov _ cfr _ _) => if cfr = s.frame then covSetFrame h c fr else (h, .ok ())
+        | some (.cov _ cfr _ _) => if cfr = s.frame then covSetFrame h c fr env else (h, .ok ())
         | _ => (h, .error .bad)
       | _ => (h, .ok ())
 
 /-- `sv.frame = name` -/
-def setFrame (h : Heap) (a : Nat) (name : String) (env : Option Err := none) : Res Unit :=
+def setFrame (h : Heap) (a : Nat) (name : String) (env : Env := noEnv) : Res Unit :=
   match resolveFrame name with
   | none => (h, .error .unknownFrame)
   | some fr => setFrameTo h a fr env
